@@ -304,8 +304,8 @@ def runCmd : Nat → Ed → String → Bytes → Bytes → Bytes → Option Byte
       | some buf =>
         match exRegion ed loc with
         | none => none
-        | some ((rc, _, e), ed) =>
-          if rc != 0 then some (1, ed) else
+        | some ((rc, b, e), ed) =>
+          if rc != 0 && (b != 0 || e != 0) then some (1, ed) else
           let n := ed.len
           match ed.edit (some buf) e e with
           | none => none
@@ -325,8 +325,8 @@ def runCmd : Nat → Ed → String → Bytes → Bytes → Bytes → Option Byte
     else if handler == "ec_mark" then
       match exRegion ed loc with
       | none => none
-      | some ((rc, _, e), ed) =>
-        if rc != 0 then some (1, ed) else
+      | some ((rc, b, e), ed) =>
+        if rc != 0 || e ≤ b then some (1, ed) else
         match ed.lb with
         | none => none
         | some lb => some (0, ed.setLb (setMark lb (arg.headD 0) (e - 1) 0))
